@@ -235,6 +235,17 @@ class Run(object):
             mop = ('clear',)
         else:
             raise ValueError(op)
+        if name in ('update', 'ior'):
+            # the caller keeps using what it passed in
+            try:
+                if isinstance(arg, list):
+                    arg.append(('zz-caller', 1))
+                elif type(arg) is dict:
+                    arg['zz-caller'] = 1
+                elif arg is not c and hasattr(arg, 'max_size'):
+                    arg['zz-caller'] = 1
+            except Exception:
+                pass
         alts = model.apply(st, mop)
         for s2, r in alts:
             if r == got:
